@@ -67,10 +67,30 @@ def make_args_unique(a: ast.Lambda) -> ast.Lambda:
 
             return r
 
+        def visit_comprehension_expr(self, node):
+            """A comprehension that was not turned into `Select`/`Where` (a set or a dictionary):
+            its first iterable is evaluated outside, everywhere else its targets hide our arguments"""
+            node.generators[0].iter = self.visit(node.generators[0].iter)
+            targets = [
+                n.id
+                for g in node.generators
+                for n in ast.walk(g.target)
+                if isinstance(n, ast.Name)
+            ]
+            self._arg_stack.extend((t, t) for t in targets)
+            r = self.generic_visit(node)
+            del self._arg_stack[len(self._arg_stack) - len(targets) :]
+            return r
+
+        visit_ListComp = visit_comprehension_expr
+        visit_SetComp = visit_comprehension_expr
+        visit_DictComp = visit_comprehension_expr
+        visit_GeneratorExp = visit_comprehension_expr
+
         def visit_Name(self, node: ast.Name) -> ast.Name:
             for n in reversed(self._arg_stack):
                 if n[0] == node.id:
-                    return ast.Name(id=n[1], ctx=ast.Load())
+                    return ast.Name(id=n[1], ctx=node.ctx)
             return node
 
     return replace_args().visit(copy.deepcopy(a))
